@@ -142,14 +142,20 @@ def load_replay(path: str) -> dict:
         return json.load(f)
 
 
+def _out_root() -> str:
+    """VERIF_OUT_DIR (measuring tools that run many checks against scratch trees at once) redirects what a run WRITES - evidence and
+    new replay files - away from the checkout; what a run reads (known findings, committed replays) is always the checkout's."""
+    return os.environ.get("VERIF_OUT_DIR") or VERIF_DIR
+
+
 def write_replay(pid: str, sig: str, case, detail: str, prefix: str = "viol") -> str:
-    d = os.path.join(VERIF_DIR, "replays", pid)
+    d = os.path.join(_out_root(), "replays", pid)
     os.makedirs(d, exist_ok=True)
     path = os.path.join(d, "%s-%s.json" % (prefix, chash(sig)))
     with open(path, "w", encoding="utf-8") as f:
         json.dump({"property": pid, "signature": sig, "case": case, "detail": detail}, f, indent=1, ensure_ascii=True, default=repr)
         f.write("\n")
-    return os.path.relpath(path, VERIF_DIR)
+    return os.path.relpath(path, _out_root())
 
 
 # ------------------------------------------------------------------------------------------------
@@ -251,7 +257,7 @@ def shrink(case, still_fails, budget: int = 400):
 
 
 def write_evidence(pid, tier, seed, col: Collector, rule, assumptions, wall, nviol, extra=None) -> str:
-    d = os.path.join(VERIF_DIR, "evidence")
+    d = os.path.join(_out_root(), "evidence")
     os.makedirs(d, exist_ok=True)
     cov = {
         "evaluations": int(col.evaluations),
